@@ -6,10 +6,12 @@ import (
 	"bytes"
 	"fmt"
 	"os"
+	"strconv"
 	"strings"
 	"testing"
 	"time"
 
+	"github.com/virus-evolution/gofasta/pkg/encoding"
 	"github.com/virus-evolution/gofasta/pkg/fastaio"
 	"github.com/virus-evolution/gofasta/pkg/variants"
 	"pgregory.net/rapid"
@@ -98,9 +100,22 @@ func readStream(data []byte, scoring bool) c16Result {
 	}
 	close(ch)
 	for r := range ch {
-		res.recs = append(res.recs, c16Rec{ID: r.ID, Desc: r.Description, Seq: r.Decode().Seq, Idx: r.Idx, Score: r.Score, A: r.Count_A, C: r.Count_C, G: r.Count_G, T: r.Count_T})
+		res.recs = append(res.recs, c16Rec{ID: r.ID, Desc: r.Description, Seq: fastDecode(r.Seq), Idx: r.Idx, Score: r.Score, A: r.Count_A, C: r.Count_C, G: r.Count_G, T: r.Count_T})
 	}
 	return res
+}
+
+var decodeTable = encoding.MakeDecodingArray()
+
+// fastDecode is a linear-time rendering of an encoded sequence (gofasta's own Decode concatenates strings,
+// which is quadratic and too slow for the 64 KiB boundary cases; the table it uses is the same one).
+func fastDecode(seq []byte) string {
+	var sb strings.Builder
+	sb.Grow(len(seq))
+	for _, c := range seq {
+		sb.WriteString(decodeTable[c])
+	}
+	return sb.String()
 }
 
 func readList(data []byte) c16Result {
@@ -112,7 +127,7 @@ func readList(data []byte) c16Result {
 		return err
 	})
 	for _, r := range recs {
-		res.recs = append(res.recs, c16Rec{ID: r.ID, Desc: r.Description, Seq: r.Decode().Seq, Idx: r.Idx})
+		res.recs = append(res.recs, c16Rec{ID: r.ID, Desc: r.Description, Seq: fastDecode(r.Seq), Idx: r.Idx})
 	}
 	return res
 }
@@ -418,6 +433,26 @@ func genC16Records(t *rapid.T) []FaRec {
 	w := rapid.IntRange(1, 30).Draw(t, "width")
 	n := rapid.IntRange(1, 5).Draw(t, "nrec")
 	var recs []FaRec
+	if rapid.IntRange(0, 9).Draw(t, "periodic") == 0 {
+		// wide, low-complexity records (repeated units, poly-N stretches): when wrapped at the unit length
+		// consecutive sequence lines are identical, as they are in real files with long N tracts
+		u := rapid.SampledFrom([]int{60, 64, 70, 80, 100}).Draw(t, "unit")
+		w = rapid.IntRange(2*u, 6*u).Draw(t, "wideWidth")
+		for i := 0; i < n; i++ {
+			unit := genAlnSeq(t, u, "unitSym")
+			if rapid.IntRange(0, 2).Draw(t, "polyN") == 0 {
+				unit = strings.Repeat("N", u)
+			}
+			seq := []byte(strings.Repeat(unit, w/u+1)[:w])
+			for k := rapid.IntRange(0, 3).Draw(t, "edits"); k > 0; k-- {
+				seq[rapid.IntRange(0, w-1).Draw(t, "editPos")] = alpha17[rapid.IntRange(0, 16).Draw(t, "editSym")]
+			}
+			recs = append(recs, FaRec{ID: genID(t, i, "id"), Desc: genDesc(t, "desc"), Seq: randomCase(t, string(seq), "case")})
+		}
+		periodicUnit = u
+		return recs
+	}
+	periodicUnit = 0
 	for i := 0; i < n; i++ {
 		recs = append(recs, FaRec{ID: genID(t, i, "id"), Desc: genDesc(t, "desc"), Seq: randomCase(t, genAlnSeq(t, w, "sym"), "case")})
 	}
@@ -426,10 +461,16 @@ func genC16Records(t *rapid.T) []FaRec {
 
 var hostileSnippets = []string{">", "> ", ">\n", "\n", "\n\n", "\r", "\r\n", ">x", ">x\n", "ACGT", "acgt\n", "!", "*", ".", "U", "Z", " ", "\t", ">a b\n", "\x00", "\xff", ">>"}
 
+// periodicUnit is set by genC16Records when it produced unit-periodic records (single-threaded generator).
+var periodicUnit int
+
 func genC16(t *rapid.T) c16Case {
 	recs := genC16Records(t)
 	w := len(recs[0].Seq)
 	lay := genLayout(t, w)
+	if periodicUnit > 0 && rapid.IntRange(0, 3).Draw(t, "wrapAtUnit") != 0 {
+		lay.Width = periodicUnit
+	}
 	data := []byte(renderFasta(recs, lay))
 	kind := rapid.SampledFrom([]string{"layout", "layout", "blank", "corrupt", "corrupt", "corrupt"}).Draw(t, "kind")
 	c := c16Case{Kind: kind, Model: recs}
@@ -548,6 +589,41 @@ func TestC16(t *testing.T) {
 		}
 	}, checkC16)
 	stats.Extra["fixed_hostile_inputs"] = n
+	if t.Failed() {
+		return
+	}
+	// line-length boundary sweep: single-line records whose length sits on, just below and just above every
+	// multiple of 1024 (thorough: 256) up to 66 KiB, with LF and CRLF line ends, with and without a final
+	// terminator. Buffered line readers have their off-by-ones exactly there.
+	shard, _ := strconv.Atoi(shardTag())
+	nsh, _ := strconv.Atoi(getenvDefault("VERIF_NSHARDS", "1"))
+	step := 1024
+	if thorough() {
+		step = 256
+	}
+	m := runEnumerated(t, "C16", func(yield func(c16Case) bool) {
+		i := 0
+		for base := step; base <= 66*1024; base += step {
+			for d := -2; d <= 1; d++ {
+				for _, crlf := range []bool{false, true} {
+					i++
+					if i%nsh != shard%nsh {
+						continue
+					}
+					L := base + d
+					unit := "ACGTNRYKM-SWBDHV?acgtn"
+					s1 := strings.Repeat(unit, L/len(unit)+1)[:L]
+					s2 := strings.Repeat(unit[3:]+unit[:3], L/len(unit)+1)[:L]
+					recs := []FaRec{{ID: "r1", Desc: "first", Seq: s1}, {ID: "r2", Seq: s2}}
+					data := []byte(renderFasta(recs, Layout{Width: 0, CRLF: crlf, FinalNL: i%3 != 0}))
+					if !yield(c16Case{Kind: "line-length-boundary", Data: data, Preview: fmt.Sprintf("2 records, one line of %d symbols each, crlf=%v", L, crlf)}) {
+						return
+					}
+				}
+			}
+		}
+	}, checkC16)
+	stats.Extra["line_length_boundary_cases_this_shard"] = m
 	if t.Failed() {
 		return
 	}
